@@ -283,6 +283,36 @@ def check_state(case):
                     "Ethernet details differ",
                     dict(det, ip=ci.ip_address, eth=ci.ethernet_up,
                          local=list(ci.local_ethernet_chip)))
+        # ---- the second description is the caller's to edit in place (a
+        # flaky link struck out, a core marked as unusable): neither the
+        # other chips, nor the first description, nor a later probe through
+        # a new controller may show the edit
+        if responding:
+            ed = sorted(responding)[case["h"] % len(responding)]
+            with sut("editing one chip's entry of a description"):
+                ent = si_again[ed]
+                if isinstance(ent.working_links, set):
+                    ent.working_links.clear()
+                    ent.working_links.add("struck out")
+                if isinstance(ent.core_states, list):
+                    ent.core_states.append("unusable")
+            with sut("probing through a new controller"):
+                si_new = w.controller().get_system_info()
+            for what, d in (("the same description", si_again),
+                            ("a description obtained earlier", si),
+                            ("a later probe through a new controller",
+                             si_new)):
+                for c in sorted(responding):
+                    if d is si_again and c == ed:
+                        continue
+                    s_ = spec[c]
+                    require(set(d[c].working_links) == set(s_["links"]) and
+                            list(d[c].core_states) ==
+                            [STATE_VAL[n] for n in s_["states"][:s_["cores"]]],
+                            "editing one chip's entry of a system "
+                            "description in place changed what %s says "
+                            "about a chip" % what,
+                            {"edited": list(ed), "chip": list(c)})
         # ---- SystemInfo helpers
         all_xy = set((x, y) for x in range(wx) for y in range(hy))
         require(set(si.dead_chips()) == all_xy - responding and
